@@ -461,6 +461,24 @@ fn grammar_strings(thorough: bool) -> Vec<(StreamKind, Endpoint, Vec<u8>)> {
             sec2.extend(std::iter::repeat(0xff).take(n));
             out.push((StreamKind::Request, me, rf::frame(rf::HEADERS, &sec2)));
         }
+        // frames that take many transport reads when they arrive in small pieces that are all queued already: a
+        // head of > 100 bytes (one byte per read = > 100 reads for one frame), and 40 complete unknown frames in front
+        // of a head (one read per frame and more)
+        {
+            let f = |n: &str, v: &[u8]| (n.as_bytes().to_vec(), v.to_vec());
+            let mut fields = if me == Endpoint::Server { vec![f(":method", b"GET"), f(":scheme", b"https"), f(":authority", b"a"), f(":path", b"/")] } else { vec![f(":status", b"200")] };
+            fields.push(f("x-long", &[b'v'; 90]));
+            let head = rf::frame(rf::HEADERS, &refimpl::qpack::encode_literal_section(&fields, false));
+            let mut b = head.clone();
+            b.extend(rf::frame(rf::DATA, &[b'd'; 70]));
+            out.push((StreamKind::Request, me, b));
+            let mut c = Vec::new();
+            for _ in 0..40 {
+                c.extend(rf::frame(0x21, &[]));
+            }
+            c.extend(rf::frame(rf::HEADERS, if me == Endpoint::Server { REQ_SECTION } else { RESP_SECTION }));
+            out.push((StreamKind::Request, me, c));
+        }
         // WebTransport bidi signal on a request stream
         out.push((StreamKind::Request, me, vec![0x40, 0x41, 0x00, 0xde, 0xad]));
         out.push((StreamKind::Request, me, vec![0x40, 0x41, 0x40]));
@@ -561,7 +579,7 @@ pub fn run(args: &Args) -> i32 {
     rep.exhaustive = true;
     let l = if thorough { 3 } else { 2 };
     rep.rule = format!(
-        "(a) every byte string of length <= {l} on each of 9 stream kinds (request, control after SETTINGS, control as first bytes, QPACK encoder, QPACK decoder, push, WebTransport uni, unknown, and a unidirectional stream with nothing but the string: ended before, inside or right behind its type) x role x delivery (whole, one byte per read) x (FIN, left open){}; (b) grammar strings (request-stream sequences of <= {} frames over the C03 alphabet, control-stream sequences over the C04 alphabet, malformed/invalid field sections, a field section without field lines as head and as trailers, WebTransport signal, unidirectional streams that stop before / inside / right behind their type) x one fault of {{FIN, RESET, STOP_SENDING, connection close, transport timeout, or no fault but a transport chunk boundary (bytes read before the rest is written)}} injected at EVERY byte offset x delivery (whole, per byte). (c) size extremes: field sections with N field lines for N around http::HeaderMap's capacity limits (24576/24577, 32768/32769; duplicates of one line and distinct names; as head and as trailers) and frames of every kind with declared lengths 2^32-1, 2^32, 2^62-1. (d) string literals announcing 2^31 ... 2^64-1 bytes with two bytes present (name and value position, plain and Huffman), each executed in a child process so that an aborting allocation is an observation. Real server / client run the documented call pattern including the sending half. Oracle: no panic in any poll (overflow checks + debug assertions on); at quiescence no call is pending on a finished/reset stream or a dead connection. states = distinct final (transport, observation) fingerprints; non-trivial = cases with a fault or >= 2 bytes.",
+        "(a) every byte string of length <= {l} on each of 9 stream kinds (request, control after SETTINGS, control as first bytes, QPACK encoder, QPACK decoder, push, WebTransport uni, unknown, and a unidirectional stream with nothing but the string: ended before, inside or right behind its type) x role x delivery (whole, one byte per read) x (FIN, left open){}; (b) grammar strings (request-stream sequences of <= {} frames over the C03 alphabet, control-stream sequences over the C04 alphabet, malformed/invalid field sections, a field section without field lines as head and as trailers, WebTransport signal, a head of more than 100 bytes and 40 unknown frames in front of a head (many transport reads per call under one-byte reads), unidirectional streams that stop before / inside / right behind their type) x one fault of {{FIN, RESET, STOP_SENDING, connection close, transport timeout, or no fault but a transport chunk boundary (bytes read before the rest is written)}} injected at EVERY byte offset x delivery (whole, per byte). (c) size extremes: field sections with N field lines for N around http::HeaderMap's capacity limits (24576/24577, 32768/32769; duplicates of one line and distinct names; as head and as trailers) and frames of every kind with declared lengths 2^32-1, 2^32, 2^62-1. (d) string literals announcing 2^31 ... 2^64-1 bytes with two bytes present (name and value position, plain and Huffman), each executed in a child process so that an aborting allocation is an observation. Real server / client run the documented call pattern including the sending half. Oracle: no panic in any poll (overflow checks + debug assertions on); at quiescence no call is pending on a finished/reset stream or a dead connection. states = distinct final (transport, observation) fingerprints; non-trivial = cases with a fault or >= 2 bytes.",
         if thorough { " (length 3: request and control kinds)" } else { "" },
         if thorough { 4 } else { 3 }
     );
